@@ -263,7 +263,7 @@ PROPS['C09'] = dict(
     level_note='Trusted: rustc, Kani + CBMC. Not decided: WaitingState::handle_chord accumulation and decomposition, the control flow of ChordsV2::process_presses around the closure bodies that are under contract (reads an FxHashMap), what handle_chord puts into the pressed queue.',
     technique='contract harnesses (Kani/CBMC): symbolic tables / queues within stated bounds, set-theoretic oracles from the statement',
     design_ref='DESIGN.md section 4, C09',
-    explanation='chord tables (v1): ChordsGroup::{get_keys, get_chord, get_chord_if_unambiguous} are proved UNBOUNDED by Verus (unit chordtab: first entry for the coordinate; exact-set match; unambiguous iff no defined chord strictly contains the pressed set - via an assumed try_fold / find contract for pure closures and closure annotations generated from the closure text, R12) in addition to the bounded Kani harnesses; v2 get_active_chord (cut whole, same unit) is proved UNBOUNDED too: an activated chord starts out with coordinate / age / action / participants as given, waits for EVERY participant under release-on-last-release and for nothing otherwise, and starts out already released iff a release was seen while collecting and the rule is release-on-first-release (heapless extend -> helper with the capacity as precondition: a chord has <= 16 participants, an observation about the parser\'s limit); three closure BODIES of chords v2 are fragments with their captures as parameters (same unit): release_in_active_chord (the for_each closure of drain_releases: a non-participant changes nothing; a participant is struck off the keys still to be released and the chord counts as released exactly when none is left), chord_is_exactly_the_pressed_set (x3: the predicate handed to find() at the three places process_presses looks for a completed chord accepts a chord iff its participants and the accumulated presses are the SAME set - `xs.iter().all(|v| ys.contains(v))` -> assumed subset helpers, R48), drop_consumed_presses (the last statement of process_presses: exactly the queued presses of the keys that went into the chord are removed, every other queued event stays in order); the iteration around them (ArrayDeque / heapless retain, iter_mut().for_each, filter().find()) is std and assumed; the rest of chord release tracking (v2): Kani; v1 "action repeated on every participating coordinate": Verus unit waiting (shared with C05): after the tap action ran at the chord coordinate, waiting_into_tap performs each simple action (key / output chord / one-shot / layer, also as members of a multi) once on every coordinate of the pressed queue, in order, and nothing else (spec fn repeats).',
+    explanation='chord tables (v1): ChordsGroup::{get_keys, get_chord, get_chord_if_unambiguous} are proved UNBOUNDED by Verus (unit chordtab: first entry for the coordinate; exact-set match; unambiguous iff no defined chord strictly contains the pressed set - via an assumed try_fold / find contract for pure closures and closure annotations generated from the closure text, R12) in addition to the bounded Kani harnesses; v2 get_active_chord (cut whole, same unit) is proved UNBOUNDED too: an activated chord starts out with coordinate / age / action / participants as given, waits for EVERY participant under release-on-last-release and for nothing otherwise, and starts out already released iff a release was seen while collecting and the rule is release-on-first-release (heapless extend -> helper with the capacity as precondition: a chord has <= 16 participants, an observation about the parser\'s limit); three closure BODIES of chords v2 are fragments with their captures as parameters (same unit): release_in_active_chord (the for_each closure of drain_releases: a non-participant changes nothing; a participant is struck off the keys still to be released and the chord counts as released exactly when none is left), chord_is_exactly_the_pressed_set (x3: the predicate handed to find() at the three places process_presses looks for a completed chord accepts a chord iff its participants and the accumulated presses are the SAME set - `xs.iter().all(|v| ys.contains(v))` -> assumed subset helpers, R48), drop_consumed_presses (the last statement of process_presses: exactly the queued presses of the keys that went into the chord are removed, every other queued event stays in order); the iteration around them (ArrayDeque / heapless retain, iter_mut().for_each, filter().find()) is std and assumed; forward_while_ignoring_chords (the first statement of drain_inputs, a fragment): while chords are being ignored the input queue is forwarded to the 16-slot drain queue and NOTHING IS LOST - forwarded events followed by what is still queued are the old drain queue followed by the old input queue, in order; the contract of `extend` it relies on (a Wrapping ArrayDeque takes only what fits and drops the rest of the iterator) is what the library does and is cross-checked on the real crate by the Kani harness c09_k_arraydeque_extend_takes_what_fits; this obligation FAILED on the tree as found (finding F6, repaired by a fix: commit); the rest of chord release tracking (v2): Kani; v1 "action repeated on every participating coordinate": Verus unit waiting (shared with C05): after the tap action ran at the chord coordinate, waiting_into_tap performs each simple action (key / output chord / one-shot / layer, also as members of a multi) once on every coordinate of the pressed queue, in order, and nothing else (spec fn repeats).',
     verus=[dict(unit='chordtab'), dict(unit='waiting', only=['waiting_into_tap', 'lemma_sigs_push'])],
     kani=[
         H('keyberon', 'action', 'c09_b_get_chord', kind='bounded', bound='<= 3 chords, 128-bit sets symbolic', functions=[A + 'ChordsGroup::get_chord']),
@@ -272,6 +272,7 @@ PROPS['C09'] = dict(
         H('keyberon', 'action', 'c09_b_get_chord_if_unambiguous_neg', kind='bounded', expect='fail', covers='must-fail twin'),
         H('keyberon', 'chord', 'c09_k_next_coord', kind='complete', functions=[CH + 'ChordsV2::next_coord']),
         H('keyberon', 'chord', 'c09_b_get_active_chord', kind='bounded', bound='<= 3 participants', functions=[CH + 'get_active_chord']),
+        H('keyberon', 'layout', 'c09_k_arraydeque_extend_takes_what_fits', kind='complete', covers='the `extend` contract the Verus fragment forward_while_ignoring_chords ASSUMES for ArrayDeque<_, N, Wrapping>: only `capacity - len` elements are taken, the rest of the drained iterator is dropped, drain(0..) empties the source; on the real crate, capacity 4, every fill level of both deques, symbolic elements', functions=['arraydeque 0.5.1 Extend for ArrayDeque<_, CAP, Wrapping>, ArrayDeque::drain']),
         H('keyberon', 'chord', 'c09_b_get_action_once', kind='bounded', bound='<= 3 active chords', functions=[CH + 'ChordsV2::get_action_chv2']),
         H('keyberon', 'chord', 'c09_b_drain_releases', kind='bounded', bound='1 symbolic queued event over 4 keys; 1 active chord of 2 keys awaiting 1 key; symbolic status', functions=[CH + 'ChordsV2::drain_releases']),
         H('keyberon', 'chord', 'c09_b_drain_releases_behind_press', kind='bounded', bound='same, behind a pending press of an unrelated key'),
